@@ -927,14 +927,15 @@ def with_field(base, what, where=None, highlevel=True, behavior=None):
             what, allow_record=True, allow_other=True
         )
 
-        keys = base.keys()
-        if where in base.keys():
-            keys.remove(where)
-
         def getfunction(inputs):
             nplike = ak.nplike.of(*inputs)
             base, what = inputs
             if isinstance(base, ak.layout.RecordArray):
+                # the fields of this record array (in a union of records, each
+                # member has its own)
+                keys = base.keys()
+                if where in keys:
+                    keys.remove(where)
                 if what is None:
                     what = ak.layout.IndexedOptionArray64(
                         ak.layout.Index64(nplike.full(len(base), -1, np.int64)),
